@@ -254,7 +254,7 @@ func (r *committedReader) Read(ctx context.Context, p []byte) (n int, err error)
 		if r.seg == nil {
 			return 0, ErrSegmentNotFound
 		}
-		entry, err := r.seg.findEntry(offset)
+		entry, err := entryAtOrAfter(r.seg, offset)
 		if err != nil {
 			return 0, err
 		}
@@ -423,14 +423,37 @@ func (l *commitLog) newReaderCommitted(offset int64) (contextReader, error) {
 	}, nil
 }
 
+// entryAtOrAfter is findEntry for a segment selected by findSegment, i.e. one
+// whose next offset lies beyond the given offset. Such a segment has no entry
+// at or after the offset only when it is empty (retention removed everything
+// in front of it); the position asked for is then the start of the segment.
+func entryAtOrAfter(seg *segment, offset int64) (*entry, error) {
+	e, err := seg.findEntry(offset)
+	if err == ErrEntryNotFound {
+		if seg.NextOffset() == seg.BaseOffset {
+			return &entry{Offset: seg.BaseOffset}, nil
+		}
+		// An append got in between.
+		e, err = seg.findEntry(offset)
+	}
+	return e, err
+}
+
 func getHWPos(segments []*segment, hw int64) (int, int64, error) {
 	hwSeg, hwIdx := findSegment(segments, hw)
 	if hwSeg == nil {
 		return 0, 0, ErrSegmentNotFound
 	}
-	hwEntry, err := hwSeg.findEntry(hw)
+	hwEntry, err := entryAtOrAfter(hwSeg, hw)
 	if err != nil {
 		return 0, 0, err
+	}
+	if hwEntry.Offset > hw {
+		// The message at the HW is gone (retention removed its segment while
+		// the HW was lagging). findEntry then yields the first retained
+		// message above the HW, which is not committed: the committed part of
+		// the log ends in front of it.
+		return hwIdx, hwEntry.Position, nil
 	}
 	return hwIdx, hwEntry.Position + int64(hwEntry.Size), nil
 }
